@@ -278,7 +278,7 @@ where
                         }
                     }
 
-                    if state.is_closed()
+                    if state.is_io_closed()
                         && self
                             .cfg
                             .handle_qos_after_disconnect
@@ -348,7 +348,7 @@ where
                 Ok(None)
             }
             Decoded::Packet(Packet::Auth(pkt), size) => {
-                if self.inner.sink.is_closed() {
+                if self.inner.sink.is_io_closed() {
                     Ok(None)
                 } else {
                     self.inner.control(ProtocolMessage::auth(pkt, size)).await
@@ -373,7 +373,7 @@ where
                 }
             }
             Decoded::Packet(Packet::Subscribe(pkt), size) => {
-                if self.inner.sink.is_closed() {
+                if self.inner.sink.is_io_closed() {
                     Ok(None)
                 } else if pkt.topic_filters.iter().any(|(tf, _)| !crate::topic::is_valid(tf)) {
                     Err(SpecViolation::Subs_4_7_1.into())
@@ -406,7 +406,7 @@ where
                 }
             }
             Decoded::Packet(Packet::Unsubscribe(pkt), size) => {
-                if self.inner.sink.is_closed() {
+                if self.inner.sink.is_io_closed() {
                     Ok(None)
                 } else if pkt.topic_filters.iter().any(|tf| !crate::topic::is_valid(tf)) {
                     Err(SpecViolation::Subs_4_7_1.into())
